@@ -287,4 +287,7 @@ def parts(tier, seed):
         hyp_part('grammar', timex_cases, run_timex, n, min_shard=1000),
         hyp_part('constructors', ctor_cases, run_ctor, nc, min_shard=1000),
     ]
+    if tier == 'thorough':
+        from checks import fuzz_tier
+        ps.append(fuzz_tier.atheris_part('atheris-coverage-guided', 'c14', 120, run_any))
     return ps
